@@ -128,7 +128,7 @@ def token_classes(all_exprs):
         for k in vals:
             vals[k] |= v[k]
     words = {x for x in vals["keyword"] | vals["value"] if x[:1].isalpha()}
-    marks = {x for x in vals["symbol"] | vals["operator"] | vals["value"] if x and not x[:1].isalpha()} | {",", "<"}
+    marks = {x for x in vals["symbol"] | vals["operator"] | vals["value"] if x and not x[:1].isalpha()} | {",", "<", ">", "(", ")", "[", "]", "{", "}"}
     # every standard Pygments token type that survives filtering (all but whitespace and comments), sub-kinds included:
     # predicates test kinds with `in`, so a sub-kind such as Keyword.Type or Name.Function is a token class of its own
     kinds = [t for t in T.STANDARD_TYPES if t is not T.Token and t not in T.Comment and t not in T.Whitespace and t is not T.Text.Whitespace]
@@ -194,6 +194,11 @@ def _pstate(obj, lvl=0):
         return obj
     if isinstance(obj, int):
         return min(obj, 3) if obj >= 0 else -1
+    if isinstance(obj, (list, tuple, set, frozenset)) and lvl < 4:
+        items = [_pstate(x, lvl + 1) for x in (sorted(obj, key=repr) if isinstance(obj, (set, frozenset)) else obj)]
+        return (type(obj).__name__, tuple(items[:3]), len(items) > 3)  # collections: first three elements, 'more' flag
+    if isinstance(obj, dict) and lvl < 4:
+        return ("dict", tuple(sorted((repr(k), _pstate(v, lvl + 1)) for k, v in list(obj.items())[:3])), len(obj) > 3)
     if hasattr(obj, "__dict__") and lvl < 4:
         return (type(obj).__name__, tuple(sorted((k, _pstate(v, lvl + 1)) for k, v in obj.__dict__.items())))
     return type(obj).__name__
